@@ -11,7 +11,7 @@ from harness import det_models as DM
 from harness import atoms as AT
 
 THEOREMS = {
-    'RsomeV.Props.C11': ['RsomeV.C11.defsol_equiv', 'RsomeV.C11.defsol_cost', 'RsomeV.C11.ecos_equiv', 'RsomeV.C11.ecos_cost', 'RsomeV.C11.ecos_exp_membership',
+    'RsomeV.Props.C11': ['RsomeV.C11.defsol_equiv', 'RsomeV.C11.defsol_sound', 'RsomeV.C11.defsol_complete_tol', 'RsomeV.C11.defsol_cost', 'RsomeV.C11.ecos_equiv', 'RsomeV.C11.ecos_cost', 'RsomeV.C11.ecos_exp_membership',
                          'RsomeV.C11.ortools_equiv', 'RsomeV.C11.ortools_cost', 'RsomeV.C11.gurobi_equiv', 'RsomeV.C11.gurobi_cost', 'RsomeV.C11.status_honest', 'RsomeV.C11.status_honest_grb_ort', 'RsomeV.C11.status_tests_as_modelled', 'RsomeV.C11.status_models_follow_tables',
                          'RsomeV.C11.ortools_keeps_infeasible_row', 'RsomeV.C11.gurobi_free_head'],
 }
@@ -230,7 +230,59 @@ def integer_equalities(ctx, seed):
             ctx.count('inteq:' + kind + ':' + name)
 
 
+def integer_binary_order(ctx, seed):
+    """small mixed-integer LPs in which integer and binary columns are declared in any order (also inside one `dvar(n, 'IB..')` array),
+    against enumeration, through every interface; ECOS runs in a process of its own with a timeout (its branch and bound may not return)"""
+    import itertools, json, subprocess, os
+    from rsome import ort_solver, grb_solver
+    from harness import ecos_mip_case as EM
+    r = np.random.default_rng(seed)
+    ctx.search_cases += 1; ctx.evaluations += 1
+    style = str(r.choice(['I-then-B', 'B-then-I', 'array', 'array']))
+    if style == 'I-then-B':
+        decl = [['I', 0], ['B', 0]]; letters = 'IB'
+    elif style == 'B-then-I':
+        decl = [['B', 0], ['I', 0]]; letters = 'BI'
+    else:
+        letters = ''.join(r.choice(['I', 'B'], int(r.integers(2, 4))))
+        if len(set(letters)) == 1:
+            letters = 'IB' + letters[2:]
+        decl = [[letters, len(letters)]]
+    n = len(letters)
+    case = {"intbin_seed": seed, "decl": decl, "letters": letters, "c": [float(v) for v in r.integers(1, 4, n)], "a": [float(v) for v in r.integers(1, 3, n)],
+            "cap": float(r.choice([3.0, 4.0, 5.0])), "imax": 3}
+    rng = [range(0, 4) if lt == 'I' else (0, 1) for lt in letters]
+    truth = max(float(np.dot(case['c'], p)) for p in itertools.product(*rng) if np.dot(case['a'], p) <= case['cap'])
+    for name, solver in (('default', None), ('ortools', ort_solver), ('gurobi', grb_solver)):
+        try:
+            with C.quiet():
+                m = EM.build(case)
+                (m.solve(display=False) if solver is None else m.solve(solver, display=False))
+                val = float(m.get())
+        except Exception as ex:
+            ctx.hit('interface-raises:' + name + ':' + type(ex).__name__, {"error": str(ex)[:200]}, dict(case, interface=name)); continue
+        if abs(val - truth) > 1e-5 * (1 + abs(truth)):
+            ctx.hit('interface-differs-from-enumeration:' + name, {"reported": val, "enumeration": truth}, dict(case, interface=name))
+        else:
+            ctx.count('intbin:' + style + ':' + name)
+    env = dict(os.environ, RSOME_REPO=C.REPO, PYTHONPATH=os.path.dirname(os.path.dirname(os.path.abspath(EM.__file__))))
+    try:
+        p = subprocess.run(['/venv/bin/python', os.path.abspath(EM.__file__), json.dumps(case)], capture_output=True, text=True, timeout=60, env=env)
+    except subprocess.TimeoutExpired:
+        ctx.hit('interface-does-not-return:ecos', {"timeout_s": 60, "enumeration": truth}, dict(case, interface='ecos')); return
+    out = [l for l in p.stdout.splitlines() if l.startswith('value ')]
+    if not out:
+        ctx.hit('interface-raises:ecos', {"error": p.stderr[-300:]}, dict(case, interface='ecos')); return
+    val = float(out[-1].split()[1])
+    if abs(val - truth) > 1e-5 * (1 + abs(truth)):
+        ctx.hit('interface-differs-from-enumeration:ecos', {"reported": val, "enumeration": truth}, dict(case, interface='ecos'))
+    else:
+        ctx.count('intbin:' + style + ':ecos')
+
+
 def run(ctx):
+    for k in range(ctx.n(10, 120)):
+        integer_binary_order(ctx, int(ctx.rng.integers(2 ** 31)))
     for k in range(ctx.n(12, 150)):
         integer_equalities(ctx, int(ctx.rng.integers(2 ** 31)))
     # correspondence: the arguments each interface really hands to its solver API (recorded by wrapping the entry points)
@@ -259,6 +311,9 @@ def run(ctx):
 def replay(rp):
     ctx = C.Ctx('C11', 'quick', 0)
     c = rp['case']
+    if 'intbin_seed' in c:
+        integer_binary_order(ctx, c['intbin_seed'])
+        return {"hits": [(h['key'], h['detail']) for h in ctx.hits], "fails": bool(ctx.hits)}
     if 'inteq_seed' in c:
         integer_equalities(ctx, c['inteq_seed'])
         return {"hits": [(h['key'], h['detail']) for h in ctx.hits], "fails": bool(ctx.hits)}
